@@ -18,6 +18,7 @@ import (
 	_ "github.com/gdamore/tcell/v2/terminfo/extended"
 
 	"verifharness/faketty"
+	"verifharness/ptytty"
 	"verifharness/trace"
 )
 
@@ -41,9 +42,33 @@ func (l *pipeLog) emit(e trace.Ev) {
 	l.mu.Unlock()
 }
 
-func newLiveScreen(term string, w, h int) (tcell.Screen, *faketty.Tty, error) {
+// liveTty is the terminal side of a running screen: the fake Tty, or the master of a pseudo-terminal whose slave
+// tcell drives with its real device Tty (tty_unix.go).
+type liveTty interface {
+	Inject(b []byte)
+	SetSize(w, h int, fire bool) bool
+	FailRead(err error)
+}
+
+var pipeTtyKind = "fake"
+
+func newLiveScreen(term string, w, h int) (tcell.Screen, liveTty, error) {
 	ti := *terminfo.VerifEntry(term)
-	tty := faketty.New(w, h)
+	var tty tcell.Tty
+	var live liveTty
+	if pipeTtyKind == "pty" {
+		p, err := ptytty.Open(w, h)
+		if err != nil {
+			return nil, nil, err
+		}
+		if tty, err = p.Tty(); err != nil {
+			return nil, nil, err
+		}
+		live = p
+	} else {
+		f := faketty.New(w, h)
+		tty, live = f, f
+	}
 	s, err := tcell.NewTerminfoScreenFromTtyTerminfo(tty, &ti)
 	if err != nil {
 		return nil, nil, err
@@ -51,7 +76,38 @@ func newLiveScreen(term string, w, h int) (tcell.Screen, *faketty.Tty, error) {
 	if err := s.Init(); err != nil {
 		return nil, nil, err
 	}
-	return s, tty, nil
+	return s, live, nil
+}
+
+// ptyUnavailable reports why no pseudo-terminal can be had here ("" when one can).
+func ptyUnavailable() string {
+	p, err := ptytty.Open(10, 4)
+	if err != nil {
+		return err.Error()
+	}
+	p.Close()
+	return ""
+}
+
+// skipRun writes an empty trace and a summary that says why nothing ran.
+func skipRun(out, why string) error {
+	tw, err := trace.Create(out)
+	if err != nil {
+		return err
+	}
+	if err := tw.Close(); err != nil {
+		return err
+	}
+	sum, _ := json.Marshal(map[string]interface{}{"skipped": why, "histories": 0, "events": 0, "ops": 0, "distinct": 0})
+	fmt.Println(string(sum))
+	return nil
+}
+
+// releaseTty frees the pseudo-terminal of a finished scenario.
+func releaseTty(t liveTty) {
+	if p, ok := t.(*ptytty.Pty); ok {
+		p.Close()
+	}
 }
 
 // idRune gives input event k a rune of its own (two UTF-8 bytes each, so chunks can be 1-3 events).
@@ -74,6 +130,7 @@ func pipeDelivery(l *pipeLog, rng *rand.Rand, nkeys, nposters, nposts int, useCh
 	if err != nil {
 		return err
 	}
+	defer releaseTty(tty)
 	s.EnableFocus()
 	l.emit(trace.Ev{"ev": "Reset"})
 	l.emit(trace.Ev{"ev": "Start", "keys": nkeys, "posters": nposters, "posts": nposts, "channel": useChannel, "kRune": int(tcell.KeyRune)})
@@ -303,6 +360,7 @@ func pipeShutdown(l *pipeLog, st startState, kind string, rep int) error {
 	if err != nil {
 		return err
 	}
+	defer releaseTty(tty)
 	base := runtime.NumGoroutine()
 	// drain the initial resize event so that the queue level is ours to set
 	for s.HasPendingEvent() {
@@ -530,7 +588,14 @@ func pipeMain(args []string) error {
 	seed := fs.Int64("seed", 1, "seed")
 	mode := fs.String("mode", "delivery", "delivery | shutdown")
 	runs := fs.Int("runs", 10, "delivery runs / repetitions of each start state")
+	ttyKind := fs.String("tty", "fake", "fake | pty (tcell's real device Tty on a pseudo-terminal)")
 	fs.Parse(args)
+	pipeTtyKind = *ttyKind
+	if pipeTtyKind == "pty" {
+		if why := ptyUnavailable(); why != "" {
+			return skipRun(*out, why)
+		}
+	}
 	os.Setenv("LC_ALL", "en_US.UTF-8")
 	tw, err := trace.Create(*out)
 	if err != nil {
@@ -566,6 +631,9 @@ func pipeMain(args []string) error {
 		for _, st := range states {
 			for _, kind := range kinds {
 				for rep := 0; rep < *runs; rep++ {
+					if pipeTtyKind == "pty" && st.readErr && kind == "suspend-resume-fini" {
+						continue // after a hang-up the device is gone: there is nothing to resume on
+					}
 					if pipeHangs >= 4 {
 						l.emit(trace.Ev{"ev": "Aborted", "hangs": pipeHangs})
 						goto finish
